@@ -101,10 +101,10 @@ def Bool(b):
     return {"k": "bool", "v": bool(b)}
 
 
-def Str(s):
+def Str(s, multiline=False):
     if isinstance(s, str):
         s = s.encode("utf-8")
-    return {"k": "str", "v": list(s)}
+    return {"k": "str", "v": list(s), "multiline": multiline}
 
 
 Unit = {"k": "unit"}
@@ -358,7 +358,7 @@ def sem_expr(e):
     if isinstance(e, dict):
         out = {}
         for k, v in e.items():
-            if k in ("suffix", "qualified", "form", "pts", "q", "tyname"):
+            if k in ("suffix", "qualified", "form", "pts", "q", "tyname", "multiline"):
                 continue
             if k == "ty" and isinstance(v, list):     # let annotation
                 continue
@@ -375,25 +375,31 @@ def sem_expr(e):
 ESC = {34: '\\"', 92: "\\\\", 10: "\\n", 9: "\\t", 13: "\\r"}
 
 
-def needs_multiline(b):
-    return any(x in (34, 92) or x < 32 for x in b)
+ESC = {34: '\\"', 92: "\\\\", 10: "\\n", 9: "\\t", 13: "\\r", 8: "\\b", 12: "\\f"}
 
 
-def render_str(bs, ind=0):
-    out = []
+def render_str(bs, ind=0, multiline=False):
     b = bytes(bs)
     try:
         s = b.decode("utf-8")
     except UnicodeDecodeError:
         raise ValueError("string literal is not UTF-8")
-    if needs_multiline(b):
-        # escapes are not denotable reliably (see C11); a multi-line string literal carries every byte verbatim, but needs a line feed
+    if multiline:
+        # a multi-line string literal carries every byte of its lines verbatim; it needs at least one line feed
         if 10 not in b or 13 in b:
-            raise ValueError("string with quote/backslash/control characters but without a line feed cannot be written")
+            raise ValueError("multi-line literal needs a line feed and no carriage return")
         pad = "    " * (ind + 2)
-        lines = s.split("\n")
-        return ("\n" + pad).join("\\\\" + ln for ln in lines) + "\n" + pad
-    return '"' + s + '"'
+        return ("\n" + pad).join("\\\\" + ln for ln in s.split("\n")) + "\n" + pad
+    out = []
+    for ch in s:
+        o = ord(ch)
+        if o in ESC:
+            out.append(ESC[o])
+        elif o < 32:
+            out.append("\\u%04x" % o)
+        else:
+            out.append(ch)
+    return '"' + "".join(out) + '"'
 
 
 def render_int(e):
@@ -463,7 +469,7 @@ def R(e, ind=0):
     if k == "bool":
         return "true" if e["v"] else "false"
     if k == "str":
-        return render_str(e["v"], ind)
+        return render_str(e["v"], ind, multiline=e.get("multiline", False))
     if k == "unit":
         return "()"
     if k == "var":
